@@ -157,8 +157,8 @@ def run_open(spec, rec):
                 u.value = 'u'
                 s.add(u)
             name = '%s_%d' % (seg, base + rng.randint(3, 9))
-            how = ('add', 'ctor', 'parent')[i % 3]
-            mism = ('level', 'version')[(i // 3) % 2]
+            how = ('add', 'ctor', 'parent', 'children', 'proxy-value', 'ctor-datatype')[i % 6]
+            mism = ('level', 'version')[(i // 6) % 2]
             lvl = 3 - level if mism == 'level' else level
             ver = hist._other_version(v) if mism == 'version' else v
             before = treeinv.snapshot(s)
@@ -168,6 +168,20 @@ def run_open(spec, rec):
             try:
                 if how == 'ctor':
                     core.Field(name, parent=s, version=ver, validation_level=lvl)
+                elif how == 'children':
+                    # a children list whose first item is fine (a field beyond the populated ones) and whose second is refused
+                    first = s.add_field(name) if not seg.startswith('Z') else core.Field(name, version=v, validation_level=level)
+                    if not seg.startswith('Z'):
+                        s.children.remove(first)
+                        before = treeinv.snapshot(s)
+                    s.children = list(s.children.list) + [first, core.Field('MSH_3' if seg != 'MSH' else 'PID_3', version=v,
+                                                                            validation_level=level)]
+                elif how == 'proxy-value':
+                    getattr(s, name.lower()).value = 'x' * 70000 if level == 1 else 'fine'
+                elif how == 'ctor-datatype':
+                    if not seg.startswith('Z'):
+                        continue
+                    core.Field(name, datatype='CX', parent=s, version=v, validation_level=level)
                 else:
                     f = core.Field(name, version=ver, validation_level=lvl)
                     if how == 'add':
@@ -219,7 +233,7 @@ CAUSES = ('f_wrong_class', 'f_wrong_name', 'f_foreign_elem', 'f_level_add', 'f_l
           'f_version_set', 'f_card', 'f_badvalue', 'f_del_absent', 'f_delidx_absent', 'f_dtchange', 'f_value_wrongname',
           'f_children_bad', 'f_settype', 'f_deep_level_set', 'f_deep_version_set', 'f_parent_ctor_level',
           'f_parent_ctor_version', 'f_parent_assign_level', 'f_parent_assign_version', 'f_children_keep_bad',
-          'f_proxy_badvalue', 'f_dtobject_complex')
+          'f_proxy_badvalue', 'f_dtobject_complex', 'f_children_moved_then_bad')
 
 
 def floors(tier, m):
